@@ -132,10 +132,18 @@ fn ns_case(s: &mut Session, platform: u16, encoding: u16, st: &str) {
         r::name::Encoding::Unknown => "Unknown",
     };
     use write_fonts::validate::Validate;
-    if !matches!(catch(|| nm.validate()), Ok(Ok(()))) {
-        // rejected strings: the model must say the writer would panic (or the encoding is unknown)
-        s.count("ns-rejected-by-validate");
-        return;
+    match catch(|| nm.validate()) {
+        Ok(Ok(())) => {}
+        Ok(Err(_)) => {
+            // the model's `validateString` must reject exactly these
+            s.count("ns-rejected-by-validate");
+            s.case("ns", req, format!("{enc} rejected"));
+            return;
+        }
+        Err(p) => {
+            s.oracle("validate-no-panic:Name", false, || format!("ns {platform} {encoding} ({} chars)", cps.len()), || p);
+            return;
+        }
     }
     let resp = match catch(|| write_fonts::dump_table(&nm)) {
         Ok(Ok(bytes)) => match r::name::Name::read(FontData::new(&bytes)) {
@@ -196,6 +204,28 @@ fn name(s: &mut Session, cx: &mut Ctx, d: &mut D) {
     }
     for (p, e, st) in [(3u16, 1u16, "é".repeat(32767)), (3, 10, "\u{1F600}".repeat(16383) + "ab"), (0, 3, "\u{10FFFF}".repeat(300)), (1, 0, "\u{C4}".repeat(65535))] {
         ns_case(s, p, e, &st);
+    }
+    // beyond the length field, unknown encodings, unencodable MacRoman chars: validation must reject, never panic
+    for (p, e, st) in [
+        (3u16, 1u16, "a".repeat(32768)),
+        (3, 10, "\u{1F600}".repeat(16384)),
+        (0, 0, "\u{1F600}".repeat(16383) + "ab"),
+        (1, 0, "a".repeat(65536)),
+        (1, 0, "\u{3A9}\u{4E00}".to_string()),
+        (1, 0, "\u{1F600}".to_string()),
+        (1, 1, "A".to_string()),
+        (3, 3, "A".to_string()),
+        (2, 0, "A".to_string()),
+        (4, 0, "".to_string()),
+    ] {
+        ns_case(s, p, e, &st);
+        let nm = Name::new(vec![NameRecord::new(p, e, 0, NameId::new(1), OffsetMarker::new(st.clone()))]);
+        rt!(s, cx, "Name", Name, r::name::Name, &format!("dx:must-reject:platform={p}:encoding={e}:chars={}", st.chars().count()), &nm);
+    }
+    {
+        // a language tag has no validation hook: too long a tag panics in compile (known finding)
+        let nm = Name { name_record: vec![], lang_tag_record: Some(vec![LangTagRecord::new(OffsetMarker::new("x".repeat(32768)))]) };
+        rt!(s, cx, "Name", Name, r::name::Name, "probe:lang-tag-too-long:utf16-units=32768", &nm);
     }
     // record counts
     for n in [0usize, 1, 255, 256] {
